@@ -466,6 +466,25 @@ theorem flat_holder_projects_partial (env : Env) (silent : Bool) (s : Stmt) (hp 
     ∃ g, analyze env silent s = .ok g ∧ HolderOK g :=
   analyze_holderOK env silent s hp hs hsc
 
+/-- **statement level, explicit column list**: the same for `INSERT INTO T (c1, …, cn) <select>` / `CREATE VIEW T (c1, …, cn) AS
+    <select>` (wired by position) -/
+theorem flat_cols_holder_projects_partial (env : Env) (silent : Bool) (s : Stmt) (hp : env.prov.truthy = false)
+    (hs : fragStmtCols env s = true) (hsc : stmtScoped env s = true) :
+    ∃ g, analyze env silent s = .ok g ∧ HolderOK g :=
+  analyze_holderOK_cols env silent s hp hs hsc
+
+/-- **statement level, set operation**: the same for INSERT / CTAS / CREATE VIEW over a set operation of any number of flat
+    branches, every qualifier in scope of its own branch -/
+theorem setop_holder_projects_partial (env : Env) (silent : Bool) (s : Stmt) (hp : env.prov.truthy = false)
+    (hs : fragStmtSetop env s = true) (hsc : stmtScopedSetop env s = true) :
+    ∃ g, analyze env silent s = .ok g ∧ HolderOK g :=
+  analyze_holderOK_setop env silent s hp hs hsc
+
+/-- a statement of one of the three write fragments of `Proofs/ColumnsExact.lean` whose qualifiers are all in scope -/
+def StmtOK (env : Env) (s : Stmt) : Prop :=
+  ((fragStmt env s = true ∨ fragStmtCols env s = true) ∧ stmtScoped env s = true) ∨
+  (fragStmtSetop env s = true ∧ stmtScopedSetop env s = true)
+
 /-- the environment `Runner.analyzeAll` analyses a statement in -/
 def envOf (c : Runner.Config) (p : Runner.Provider) : Env := ⟨c.cfgDefault, c.importDefault, p.view, c.ro, c.revStar⟩
 
@@ -478,7 +497,7 @@ theorem register_base (p : Runner.Provider) (h : LGraph) : (Runner.register p h)
 
 theorem analyzeAll_holderOK (c : Runner.Config) : ∀ (ss : List Stmt) (p p' : Runner.Provider) (hs : List LGraph),
     p.base = [] →
-    (∀ s ∈ ss, fragStmt (envOf c ⟨[], []⟩) s = true ∧ stmtScoped (envOf c ⟨[], []⟩) s = true) →
+    (∀ s ∈ ss, StmtOK (envOf c ⟨[], []⟩) s) →
     Runner.analyzeAll c p ss = .ok (p', hs) → p'.base = [] ∧ ∀ h ∈ hs, HolderOK h
   | [], p, p', hs, hb, _, he => by
     simp only [Runner.analyzeAll, Except.ok.injEq, Prod.mk.injEq] at he
@@ -487,8 +506,14 @@ theorem analyzeAll_holderOK (c : Runner.Config) : ∀ (ss : List Stmt) (p p' : R
   | s :: r, p, p', hs, hb, hfrag, he => by
     have hpt : (envOf c p).prov.truthy = false := by simp [envOf, Runner.Provider.view, hb]
     have hsw : envOf c p = { envOf c ⟨[], []⟩ with prov := p.view } := rfl
-    obtain ⟨g, hg, hok⟩ := analyze_holderOK (envOf c p) c.silent s hpt
-      (by rw [hsw, fragStmt_prov]; exact (hfrag s (by simp)).1) (by rw [hsw, stmtScoped_prov]; exact (hfrag s (by simp)).2)
+    obtain ⟨g, hg, hok⟩ : ∃ g, analyze (envOf c p) c.silent s = .ok g ∧ HolderOK g := by
+      rcases hfrag s (by simp) with ⟨h1 | h1, h2⟩ | ⟨h1, h2⟩
+      · exact analyze_holderOK (envOf c p) c.silent s hpt (by rw [hsw, fragStmt_prov]; exact h1)
+          (by rw [hsw, stmtScoped_prov]; exact h2)
+      · exact analyze_holderOK_cols (envOf c p) c.silent s hpt (by rw [hsw, fragStmtCols_prov]; exact h1)
+          (by rw [hsw, stmtScoped_prov]; exact h2)
+      · exact analyze_holderOK_setop (envOf c p) c.silent s hpt (by rw [hsw, fragStmtSetop_prov]; exact h1)
+          (by rw [hsw, stmtScopedSetop_prov]; exact h2)
     unfold envOf at hg
     simp only [Runner.analyzeAll, hg] at he
     cases hrec : Runner.analyzeAll c (Runner.register p g) r with
@@ -508,14 +533,16 @@ theorem analyzeAll_holderOK (c : Runner.Config) : ∀ (ss : List Stmt) (p p' : R
 
 /-- **script level, end to end**: a script of any number of flat write statements (INSERT without column list / CTAS / CREATE VIEW
     over one SELECT block of base tables, every qualifier in scope), run by the model of `LineageRunner._eval` without metadata,
-    yields a combined graph in which every column edge between table-owned columns lies over the table edge of its owners —
+    yields a combined graph in which every column edge between table-owned columns lies over the table edge of its owners (the
+    statements may also carry an explicit column list, `fragStmtCols`, or be built over a set operation of flat branches,
+    `fragStmtSetop`: `StmtOK`) —
     provided the history leaves no unresolved column edge to the tail of `_build_digraph` (with shared unresolved columns the
     clause fails on the unchanged code: finding D11).
 
     FULL STATEMENT (not proved): the same for every statement of `Frag02`, with a provider, and through the unresolved-column
     tail for histories without shared unresolved columns. -/
 theorem script_projects_flat_partial (c : Runner.Config) (ss : List Stmt) (g : LGraph) (hs : List LGraph)
-    (hfrag : ∀ s ∈ ss, fragStmt (envOf c ⟨[], []⟩) s = true ∧ stmtScoped (envOf c ⟨[], []⟩) s = true)
+    (hfrag : ∀ s ∈ ss, StmtOK (envOf c ⟨[], []⟩) s)
     (hun : ∀ gf, Assemble.foldAll id Graph.empty hs = .ok gf → Assemble.unresolved (Assemble.tagSelfloops gf) = [])
     (he : Runner.eval c [] ss = .ok (g, hs)) : ProjG g := by
   unfold Runner.eval at he
@@ -579,10 +606,36 @@ example : (match Runner.eval {} [] [exMid, exTgt] with
       g.hasEdge (.ds (tbl "other")) (.ds (tbl "tgt"))
     | .error _ => false) = true := by decide +kernel
 
-example : ∀ s ∈ [exMid, exTgt], fragStmt (envOf {} ⟨[], []⟩) s = true ∧ stmtScoped (envOf {} ⟨[], []⟩) s = true := by
+/-- `insert into tgt (p, q) select mid.a, o.k from mid join other o on mid.a = o.k` -/
+def exTgtCols : Stmt :=
+  .insert .insertInto false ["tgt"] (some ["p", "q"])
+    (.select false [.mk (.col ["mid"] "a") none false, .mk (.col ["o"] "k") none false]
+      [.mk (.table ["mid"] none false) [.mk "join" (.table ["other"] (some "o") false)
+        (some (.bin "=" (.col ["mid"] "a") (.col ["o"] "k"))) []]] none [] none) false
+
+example : fragStmtCols {} exTgtCols = true ∧ stmtScoped {} exTgtCols = true := by decide +kernel
+example : ∃ g, analyze {} false exTgtCols = .ok g ∧ HolderOK g :=
+  flat_cols_holder_projects_partial {} false exTgtCols rfl (by decide +kernel) (by decide +kernel)
+
+/-- `create table u as select x.a from src x union all select o.k from other o` -/
+def exUnionStmt : Stmt :=
+  .ctas ["u"] false false
+    (.setop (.mk (.select false [.mk (.col ["x"] "a") none false] [.mk (.table ["src"] (some "x") false) []] none [] none) false)
+      [.mk "union all" (.mk (.select false [.mk (.col ["o"] "k") none false] [.mk (.table ["other"] (some "o") false) []]
+        none [] none) false)]) false
+
+example : fragStmtSetop {} exUnionStmt = true ∧ stmtScopedSetop {} exUnionStmt = true := by decide +kernel
+example : ∃ g, analyze {} false exUnionStmt = .ok g ∧ HolderOK g :=
+  setop_holder_projects_partial {} false exUnionStmt rfl (by decide +kernel) (by decide +kernel)
+
+example : ∀ s ∈ [exMid, exTgt, exTgtCols, exUnionStmt], StmtOK (envOf {} ⟨[], []⟩) s := by
   intro s hs
   simp only [List.mem_cons, List.mem_nil_iff, or_false] at hs
-  rcases hs with rfl | rfl <;> decide +kernel
+  rcases hs with rfl | rfl | rfl | rfl
+  · exact Or.inl ⟨Or.inl (by decide +kernel), by decide +kernel⟩
+  · exact Or.inl ⟨Or.inl (by decide +kernel), by decide +kernel⟩
+  · exact Or.inl ⟨Or.inr (by decide +kernel), by decide +kernel⟩
+  · exact Or.inr ⟨by decide +kernel, by decide +kernel⟩
 
 /-- **deviation witness** (the root cause of findings D32 and K6, on a statement no engine accepts): without `stmtScoped` the
     statement‑level theorem fails — the model, like the code (`Column.to_source_columns` falls back to `Table(qualifier)`,
